@@ -1208,7 +1208,12 @@ func (p *Parser) parseIntervalExpression() (*ast.IntervalExpression, error) {
 	if p.isNumericLiteral() {
 		numStr := p.currentToken.Literal
 		p.advance()
-		// Expect a unit keyword (DAY, HOUR, MINUTE, SECOND, MONTH, YEAR, WEEK, etc.)
+		// Expect a unit keyword (DAY, HOUR, MINUTE, SECOND, MONTH, YEAR, WEEK, etc.):
+		// a word. A terminator, a parenthesis, a comma or the end of the input is
+		// not a unit and is not consumed.
+		if !p.isBareKeywordWord() {
+			return nil, p.expectedError("interval unit")
+		}
 		unit := strings.ToUpper(p.currentToken.Literal)
 		p.advance()
 		return &ast.IntervalExpression{Value: numStr + " " + unit}, nil
